@@ -18,3 +18,78 @@ fn native_cfg_damaged_nopanic() {
     for s in ["<", ">", "<>", "\u{e9}<", "<\u{e9}", "a\tb", "\t", "<a>\r\n\t\r\n"] { native_try(&f, s.as_bytes(), "short text"); cases += 1; }
     println!("NATIVE native_cfg_damaged_nopanic cases={cases}");
 }
+
+fn ncfg_render(cats: &[(String, Vec<(String, String)>)]) -> Vec<u8> {
+    // the canonical text of the property, rendered independently of the library
+    let mut s = String::new();
+    for (c, kv) in cats { s.push_str("\r\n<"); s.push_str(c); s.push_str(">\r\n"); for (k, v) in kv { s.push_str(k); s.push('\t'); s.push_str(v); s.push_str("\r\n"); } }
+    s.push('\0');
+    s.into_bytes()
+}
+fn ncfg_configs() -> Vec<Vec<(String, Vec<(String, String)>)>> {
+    let cat_names = ["FINAL FANTASY XIV Config File", "Version", "Network Settings", "Sound Settings", "Ünïcode 設定", "x"];
+    let keys = ["GuidVersion", "Language", "MainAdapter", "ScreenLeft", "Fps", "Language", "k e y", "キー"];
+    let vals = ["538050324", "1", "", "NVIDIA GeForce RTX 3080(adapter 0)", "-1", "a b  c", "値"];
+    let mut out = vec![];
+    for ncat in 0..=4usize {
+        for shape in 0..6usize {
+            let mut cfg = vec![];
+            for c in 0..ncat {
+                let nk = (c * 2 + shape) % 4; // 0..3 keys, some categories stay empty
+                let kv: Vec<(String, String)> = (0..nk).map(|j| (keys[(c + j * 3 + shape) % keys.len()].to_string(), vals[(c * 2 + j + shape) % vals.len()].to_string())).collect();
+                cfg.push((cat_names[(c + shape) % cat_names.len()].to_string(), kv));
+            }
+            out.push(cfg);
+        }
+    }
+    out
+}
+fn ncfg_build(cats: &[(String, Vec<(String, String)>)]) -> ConfigFile {
+    let mut f = ConfigFile { categories: vec![], settings: HashMap::new() };
+    for (c, kv) in cats {
+        f.categories.push(c.clone());
+        if !kv.is_empty() { f.settings.insert(c.clone(), ConfigMap { keys: kv.clone() }); }
+    }
+    f
+}
+fn ncfg_view(f: &ConfigFile) -> Vec<(String, Vec<(String, String)>)> {
+    f.categories.iter().map(|c| (c.clone(), f.settings.get(c).map(|m| m.keys.clone()).unwrap_or_default())).collect()
+}
+
+//@unit props=C08 label=B tier=quick native=1 fn=cfg::ConfigFile::{from_existing,write_to_buffer,set_value,has_key,has_category} bound="by execution: 30 configurations of 0..4 distinctly named categories with 0..3 key/value lines each (ASCII, spaces, empty values, non-ASCII text, one duplicated key), resources/tests/FFXIV.cfg, and for each every set_value on each present key and on one absent key"
+//@desc write renders CRLF <category> CRLF key TAB value CRLF ... NUL; parsing a written configuration returns the same categories, keys and values in the same order; writing a parsed canonical file reproduces it byte for byte; set_value changes the value of every occurrence of the key and nothing else; has_key / has_category agree with the file's content
+#[test]
+fn native_cfg_roundtrip() {
+    let mut cases = 0u64;
+    let mut all = ncfg_configs();
+    let canon = native_resource("FFXIV.cfg");
+    let parsed_canon = ConfigFile::from_existing(&canon).expect("canonical file parses");
+    assert_eq!(parsed_canon.write_to_buffer().expect("write"), canon, "writing the parsed canonical file reproduces it byte for byte");
+    all.push(ncfg_view(&parsed_canon));
+    for cats in all.iter() {
+        let text = ncfg_render(cats);
+        let built = ncfg_build(cats);
+        assert_eq!(built.write_to_buffer().expect("write"), text, "written text is the canonical rendering");
+        let parsed = ConfigFile::from_existing(&text).expect("a written configuration parses");
+        assert_eq!(&ncfg_view(&parsed), cats, "categories, keys and values in the same order");
+        assert_eq!(parsed.write_to_buffer().expect("write"), text, "write(parse(text)) == text");
+        for (c, kv) in cats.iter() {
+            assert!(parsed.has_category(c), "has_category({c:?}) agrees with the file (category with {} lines)", kv.len());
+            for (k, _) in kv { assert!(parsed.has_key(k), "has_key({k:?})"); }
+        }
+        assert!(!parsed.has_category("no such category") && !parsed.has_key("no such key"));
+        let mut keys: Vec<String> = cats.iter().flat_map(|(_, kv)| kv.iter().map(|(k, _)| k.clone())).collect();
+        keys.sort(); keys.dedup();
+        keys.push("AbsentKey".to_string());
+        for k in keys.iter() {
+            let mut m = ConfigFile::from_existing(&text).unwrap();
+            m.set_value(k, "new value");
+            let want: Vec<(String, Vec<(String, String)>)> = cats.iter().map(|(c, kv)| (c.clone(), kv.iter().map(|(kk, v)| (kk.clone(), if kk == k { "new value".to_string() } else { v.clone() })).collect())).collect();
+            assert_eq!(ncfg_view(&m), want, "set_value({k:?}) changes every occurrence of the key and nothing else");
+            assert_eq!(m.write_to_buffer().unwrap(), ncfg_render(&want));
+            cases += 1;
+        }
+        cases += 1;
+    }
+    println!("NATIVE native_cfg_roundtrip cases={cases}");
+}
